@@ -190,6 +190,8 @@ typedef struct {
         int       daemon_fd;            /* the daemon's end (its number identifies the PROXY_CLNT) */
         int       connect_pending;      /* connect posted, accept not yet called */
         int       eof;                  /* daemon closed its end (read returned 0 / ECONNRESET) */
+        int       stalled;              /* 1: the client does not read and its receive buffer is full: the daemon's
+                                           end is not writable and send() on it fails with EAGAIN */
         uint8_t   rx[1 << 17]; int rxlen;
         env_rxmsg log[ENV_MAX_LOG]; int nlog;
         long      rx_bytes, tx_bytes;
@@ -203,6 +205,8 @@ static time_t env_alarm_at;              /* 0 = no alarm armed */
 static int    env_send_cap;              /* > 0: wrapped send() accepts at most this many bytes (one shot) */
 static int    env_send_eagain;           /* > 0: next send() fails with EAGAIN (one shot) */
 static long   env_select_calls;
+static int    env_eintr_pending;         /* a signal was delivered: the next select() fails once with EINTR */
+static long   env_send_calls, env_send_bytes;
 int         (*env_hook_fn)(int nready);
 
 static void env_die(const char *what)
@@ -225,6 +229,9 @@ unsigned int __wrap_alarm(unsigned int secs)
 }
 ssize_t __wrap_send(int fd, const void *buf, size_t n, int flags)
 {
+        env_send_calls++;
+        for (int c = 0; c < ENV_MAX_CLIENTS; c++)
+                if (env_clnt[c].daemon_fd == fd && env_clnt[c].fd >= 0 && env_clnt[c].stalled) { errno = EAGAIN; return -1; }
         if (env_send_eagain > 0) { env_send_eagain = 0; errno = EAGAIN; return -1; }
         if (env_send_cap > 0 && n > (size_t) env_send_cap) { n = env_send_cap; }
         env_send_cap = 0;
@@ -243,7 +250,8 @@ int __wrap_accept(int lfd, struct sockaddr *sa, socklen_t *len)
         setsockopt(sv[0], SOL_SOCKET, SO_SNDBUF, &sz, sizeof sz);
         setsockopt(sv[1], SOL_SOCKET, SO_RCVBUF, &sz, sizeof sz);
         fcntl(sv[1], F_SETFL, O_NONBLOCK);
-        env_clnt[c].fd = sv[1]; env_clnt[c].daemon_fd = sv[0]; env_clnt[c].connect_pending = 0;
+        for (int o = 0; o < ENV_MAX_CLIENTS; o++) if (env_clnt[o].daemon_fd == sv[0]) env_clnt[o].daemon_fd = -1;   /* stale: fd number reused */
+        env_clnt[c].fd = sv[1]; env_clnt[c].daemon_fd = sv[0]; env_clnt[c].connect_pending = 0; env_clnt[c].stalled = 0;
         if (sa && len && *len >= sizeof(sa_family_t)) { memset(sa, 0, *len); sa->sa_family = AF_UNIX; *len = sizeof(struct sockaddr_un); if (*len > 80) *len = 80; }
         return sv[0];
 }
@@ -258,10 +266,15 @@ int __wrap_select(int n, fd_set *rd, fd_set *wr, fd_set *ex, struct timeval *tv)
                 if (wr) w = *wr;
                 int nready = __real_select(n, rd ? &r : NULL, wr ? &w : NULL, NULL, &zero);
                 if (nready < 0) env_die("select");
+                if (wr) for (int c = 0; c < ENV_MAX_CLIENTS; c++) {
+                        int fd = env_clnt[c].daemon_fd;
+                        if (fd >= 0 && fd < n && env_clnt[c].fd >= 0 && env_clnt[c].stalled && FD_ISSET(fd, &w)) { FD_CLR(fd, &w); nready--; }
+                }
                 env_select_calls++;
                 int act = env_hook_fn ? env_hook_fn(nready) : ENV_EXIT;
                 if (act == ENV_REPOLL) continue;
                 if (act == ENV_EXIT) { proxy.should_exit = TRUE; errno = EINTR; return -1; }
+                if (env_eintr_pending) { env_eintr_pending = 0; errno = EINTR; return -1; }
                 if (nready == 0) {
                         /* nothing ready and the hook did nothing: the daemon would sleep forever */
                         proxy.should_exit = TRUE; errno = EINTR; return -1;
@@ -401,7 +414,7 @@ static int env_frame(void)
 }
 static void env_tick(int secs) { env_now += secs; }
 static int  env_alarm_due(void) { return env_alarm_at && env_now >= env_alarm_at; }
-static void env_fire_alarm(void) { env_alarm_at = 0; vbi_proxyd_alarm_handler(SIGALRM); }
+static void env_fire_alarm(void) { env_alarm_at = 0; vbi_proxyd_alarm_handler(SIGALRM); env_eintr_pending = 1; }
 
 /* the daemon's record of client c, or NULL (matched by the daemon side fd) */
 static PROXY_CLNT *env_req(int c)
@@ -431,7 +444,7 @@ static void env_init(void)
         if (env_cap.efd < 0 || env_listen_efd < 0) env_die("eventfd");
         memset(env_clnt, 0, sizeof env_clnt);
         for (int c = 0; c < ENV_MAX_CLIENTS; c++) { env_clnt[c].fd = -1; env_clnt[c].daemon_fd = -1; }
-        env_npending = 0; env_now = 1000000; env_alarm_at = 0; env_send_cap = 0; env_send_eagain = 0; env_select_calls = 0;
+        env_npending = 0; env_now = 1000000; env_alarm_at = 0; env_send_cap = 0; env_send_eagain = 0; env_select_calls = 0; env_eintr_pending = 0;
         vbi_proxyd_add_device("/dev/vbi-verif");
         proxy.dev[0].pipe_fd = env_listen_efd;
 }
